@@ -219,14 +219,21 @@ fn magnitude(c: &Case, wq: &[i64], bq: i64, s: u32, f32p: bool, ridge: Option<(i
     }
     for v in &vecs {
         let mut a = 0i128;
-        let mut b = 0i128;
         for i in 0..n {
             a += v[i].abs() * r[i].abs();
-            b += v[i].abs() * m[i];
         }
         upd(a);
-        if f32p {
-            upd(b);
+    }
+    if f32p {
+        // norm-wise magnitude NM = sum_i (sum_k |X_ik| + 1) M_i
+        let mut nm = 0i128;
+        for i in 0..n {
+            let q2: i128 = c.x[i].iter().map(|&v| (v as i128).abs()).sum::<i128>() + 1;
+            nm += q2 * m[i];
+        }
+        upd(nm);
+        if let Some((an, _, _)) = ridge {
+            upd((an as i128 + 1) * wq.iter().map(|&v| (v as i128).abs()).sum::<i128>());
         }
     }
     mx
@@ -392,8 +399,8 @@ fn gen(path: &str) {
     let mut out = Out::create(path);
     let mut rng = rng(7);
     let thorough = thorough();
-    let n_ols = if thorough { 6000 } else { 700 };
-    let n_ridge = if thorough { 9000 } else { 1000 };
+    let n_ols = if thorough { 16000 } else { 2000 };
+    let n_ridge = if thorough { 24000 } else { 3000 };
     let mut run = 0i64;
     let mut skipped = 0usize;
     let mut rejected = 0usize;
@@ -422,7 +429,7 @@ fn gen(path: &str) {
     while made < n_ridge {
         let big = thorough && rng.gen_bool(0.3);
         let normalize = rng.gen_bool(0.5);
-        let single = (made + 1) % 4 == 0;
+        let single = (made + 1) % 4 == 0 && !normalize;
         let c = match gen_case(&mut rng, big, false, normalize, normalize, single) {
             Some(c) => c,
             None => {
@@ -434,7 +441,7 @@ fn gen(path: &str) {
         run += 1;
         let (an, ae) = if rng.gen_bool(0.7) { ALPHAS[rng.gen_range(0..ALPHAS.len())] } else { (rng.gen_range(1..=160), 4) };
         let alpha = an as f64 / (1u64 << ae) as f64;
-        if made % 4 == 0 {
+        if made % 4 == 0 && !normalize {
             let fits = vec![ridge::<f32>(&c, "chol", alpha, normalize), ridge::<f32>(&c, "svd", alpha, normalize)];
             emit(&mut out, run, "Ridge", "f32", &c, &fits, Some((an, ae, normalize)), &mut skipped);
         } else {
